@@ -195,11 +195,18 @@ func c13Flush(cl *Client) {
 	}
 	done := make(chan struct{})
 	cl.Dump.DumpTo([]byte("sentinel"), c13SignalWriter{done})
+	wait := 2 * time.Second
+	if c13FlushTimeouts >= 3 { // delivery is broken: do not wait on every pair
+		wait = 10 * time.Millisecond
+	}
 	select {
 	case <-done:
-	case <-time.After(3 * time.Second):
+	case <-time.After(wait):
+		c13FlushTimeouts++
 	}
 }
+
+var c13FlushTimeouts int
 
 type c13SignalWriter struct{ ch chan struct{} }
 
